@@ -523,3 +523,36 @@ pub fn dist_tol(cfg: &SpaceCfg, a: &[f64], b: &[f64]) -> f64 {
     // small relative slack for the final sqrt-of-squares recombination
     t + 1e-14 * ref_distance(cfg, a, b)
 }
+
+/// Reference value of the motion-checking resolution L ("longest valid segment length") as the
+/// library documents it: fraction x maximum extent per component (fraction 0.05 unless set; a
+/// fraction above 1 counts as 1, a non-positive one is ignored; extent = the box diagonal for a
+/// fully bounded R^n and 1 otherwise, pi for SO(2), pi/2 for SO(3)), combined for composite
+/// spaces as sqrt(sum (w_i L_i)^2).
+pub fn ref_lvs(cfg: &SpaceCfg) -> f64 {
+    let mut tot = 0.0;
+    let mut single = 0.0;
+    for (i, c) in cfg.comps.iter().enumerate() {
+        let f = match cfg.fracs.get(i).copied().flatten() {
+            Some(f) if f > 0.0 && f <= 1.0 => f,
+            Some(f) if f <= 0.0 => 0.05,
+            Some(_) => 1.0,
+            None => 0.05,
+        };
+        let e = match c {
+            Comp::RV { bounds: Some(b), .. } if b.iter().all(|(lo, hi)| lo.is_finite() && hi.is_finite()) => {
+                b.iter().map(|(lo, hi)| (hi - lo).powi(2)).sum::<f64>().sqrt()
+            }
+            Comp::RV { .. } => 1.0,
+            Comp::SO2 { .. } => std::f64::consts::PI,
+            Comp::SO3 { .. } => 0.5 * std::f64::consts::PI,
+        };
+        single = f * e;
+        let w = cfg.weights.get(i).copied().unwrap_or(1.0);
+        tot += (single * w).powi(2);
+    }
+    match cfg.kind {
+        KindTag::RV | KindTag::SO2 | KindTag::SO3 => single,
+        _ => tot.sqrt(),
+    }
+}
